@@ -635,7 +635,11 @@ func (l *Logger) Export() *HAR {
 	curr := l.tail
 	for curr != nil {
 		curr = curr.next
-		es = append(es, curr)
+		// Export a snapshot of the entry: the logged entry stays shared with
+		// RecordResponse, which completes it later under l.mu.
+		e := *curr
+		e.next = nil
+		es = append(es, &e)
 		if curr == l.tail {
 			break
 		}
